@@ -241,7 +241,10 @@ def check_case(ctx, c):
         else:
             for ra, ad in (("retarded_degree", "advanced_degree"),
                            ("retarded_local_clustering",
-                            "advanced_local_clustering")):
+                            "advanced_local_clustering"),
+                           ("retarded_closeness", "advanced_closeness"),
+                           ("advanced_closeness", "retarded_closeness"),
+                           ("retarded_betweenness", "advanced_betweenness")):
                 with warnings.catch_warnings():
                     warnings.simplefilter("ignore")
                     r = np.asarray(getattr(g, ra)(), float)
@@ -251,6 +254,36 @@ def check_case(ctx, c):
                                   f"is not {ad} of the time-reversed series",
                                   dict(key, got=r.tolist(),
                                        mirrored=a3.tolist()), {})
+    else:
+        # series with missing samples: the graph may fall apart; time
+        # reversal still swaps the retarded and the advanced measures
+        T = max(c["t"]) + 1.0
+        c3 = dict(c, x=list(reversed(c["x"])),
+                  t=[T - v for v in reversed(c["t"])],
+                  mv=list(reversed(c["mv"])))
+        try:
+            g3 = build(c3)
+            for ra, ad in (("retarded_degree", "advanced_degree"),
+                           ("retarded_closeness", "advanced_closeness"),
+                           ("advanced_closeness", "retarded_closeness"),
+                           ("retarded_local_clustering",
+                            "advanced_local_clustering")):
+                with warnings.catch_warnings():
+                    warnings.simplefilter("ignore")
+                    with np.errstate(all="ignore"):
+                        r = np.asarray(getattr(g, ra)(), float)
+                        a3 = np.asarray(getattr(g3, ad)(), float)[::-1]
+                if not np.allclose(r, a3, equal_nan=True):
+                    ctx.violation(f"VisibilityGraph.{ra}",
+                                  f"is not {ad} of the time-reversed series "
+                                  "(missing samples)",
+                                  dict(key, got=r.tolist(),
+                                       mirrored=a3.tolist()),
+                                  {"missing_values": True})
+        except Exception as e:
+            ctx.violation("VisibilityGraph (time reversed)", "raises",
+                          dict(key, err=f"{type(e).__name__}: {e}"),
+                          {"kind": "exception"})
     rd = np.asarray(g.retarded_degree())
     ad = np.asarray(g.advanced_degree())
     if not np.array_equal(rd + ad, np.asarray(g.degree())):
